@@ -135,6 +135,7 @@ extern "C" fn on_signal(sig: i32) {
 }
 
 fn write_crash_and_exit(kind: &str, code: i32) -> ! {
+    crate::checks::c19::kill_all_probes();
     unsafe {
         if CRASH_FD >= 0 {
             let h = format!("{}\n", kind);
